@@ -21,7 +21,7 @@ Clause(e) ==
   LET st == Status(e.D) IN
   IF st = "fault" THEN
      \* a module-name clash is an export-time fault: `elaborate` alone is not required to detect it
-     LET acc == IF FaultClauses(e.D) \subseteq {"module_name_clash"} THEN SelectSeq(e.accepted, LAMBDA x : x # "elaborate") ELSE e.accepted
+     LET acc == IF FaultClauses(e.D) \subseteq {"module_name_clash"} THEN SelectSeq(e.accepted, LAMBDA x : x \notin {"elaborate", "retry_elaborate"}) ELSE e.accepted
      IN IF acc = <<>> THEN "ok_fault_rejected" ELSE "fault_not_rejected_by_" \o acc[1]
   ELSE IF st = "unspecified" THEN "ok_unspecified"
   ELSE IF e.raised THEN (IF st = "valid" THEN "rejected_valid" ELSE "ok_lenient_rejected")
